@@ -313,6 +313,8 @@ private theorem split3 (a c : Fin 3 → K) (k : Fin 3) (hk : c k = 0) :
   revert hk
   fin_cases k <;> intro hk <;> simp at hk ⊢ <;> rw [hk] <;> simp <;> ring
 
+private theorem fin3_ne : ∀ k : Fin 3, k ≠ k + 1 ∧ k ≠ k + 2 ∧ k + 1 ≠ k + 2 := by decide
+
 private theorem other_two : ∀ k k' : Fin 3, k' ≠ k → k' = k + 1 ∨ k' = k + 2 := by decide
 
 /-- the face-normal condition of axis `e_k` of cuboid 1 -/
@@ -429,5 +431,186 @@ theorem cuboids_meet_of_quadruples (m : Iso3 K) (he1 he2 : V3 K) (h : Unit3 m)
     simp [comp, toV] at q0 q1 q2
     rw [abs_le] at q0 q1 q2
     exact ⟨q0, q1, q2⟩
+
+/-- **An edge/edge axis that does not separate makes the two prisms meet.**  For the edge pair `(k, l)` with
+`n = e_k × (pos12·e_l) ≠ 0`: if `n` does not separate the cuboids (`AxisOverlap`), the prism of cuboid 1 along `e_k`
+meets the prism of cuboid 2 along its edge `l`. -/
+theorem prismsMeet_of_edge (m : Iso3 K) (he1 he2 : V3 K) (k l : Fin 3) (h : Unit3 m)
+    (h1 : ∀ k, 0 ≤ comp he1 k) (h2 : ∀ l, 0 ≤ comp he2 l) :
+    letI := fieldNum K sq
+    ((bv k : V3 K).cross (m.rot (bv l))).dot ((bv k : V3 K).cross (m.rot (bv l))) ≠ 0 →
+    AxisOverlap sq he1 he2 m ((bv k : V3 K).cross (m.rot (bv l))) → PrismsMeet sq he1 he2 m k l := by
+  intro hn H
+  set n := @V3.cross K (fieldNum K sq) (bv k) (@Iso3.rot K (fieldNum K sq) m (bv l)) with hnd
+  have cross_perp : ∀ a b : V3 K, @V3.dot K (fieldNum K sq) a (@V3.cross K (fieldNum K sq) a b) = 0 ∧
+      @V3.dot K (fieldNum K sq) b (@V3.cross K (fieldNum K sq) a b) = 0 := by
+    intro a b; simp only [V3.dot, V3.cross]; constructor <;> ring
+  have dcomm : ∀ a b : V3 K, @V3.dot K (fieldNum K sq) a b = @V3.dot K (fieldNum K sq) b a := by
+    intro a b; simp only [V3.dot]; ring
+  have en : @V3.dot K (fieldNum K sq) (bv k) n = 0 := (cross_perp _ _).1
+  have fn : @V3.dot K (fieldNum K sq) (@Iso3.rot K (fieldNum K sq) m (bv l)) n = 0 := (cross_perp _ _).2
+  -- rewrite the overlap condition over the four remaining directions
+  unfold AxisOverlap at H
+  rw [absDot_comp he1 _ h1, absDot_comp he2 _ h2] at H
+  have sA := split3 (fun i => comp he1 i) (fun i => comp n i) k (by
+    show comp n k = 0
+    rw [comp_dot sq, dcomm]; exact en)
+  have sB := split3 (fun i => comp he2 i) (fun i => comp (@Iso3.invRot K (fieldNum K sq) m n) i) l (by
+    show comp (@Iso3.invRot K (fieldNum K sq) m n) l = 0
+    rw [comp_dot sq, invRot_dot_rot sq m _ _ h, dcomm]; exact fn)
+  rw [sA, sB] at H
+  have cA : ∀ j : Fin 3, comp n j = @V3.dot K (fieldNum K sq) (bv j) n := by
+    intro j; rw [comp_dot sq, dcomm]
+  have cB : ∀ j : Fin 3, comp (@Iso3.invRot K (fieldNum K sq) m n) j
+      = @V3.dot K (fieldNum K sq) (@Iso3.rot K (fieldNum K sq) m (bv j)) n := by
+    intro j; rw [comp_dot sq, invRot_dot_rot sq m _ _ h, dcomm]
+  rw [cA, cA, cB, cB] at H
+  obtain ⟨k1, k2, k12⟩ := fin3_ne k
+  obtain ⟨l1, l2, l12⟩ := fin3_ne l
+  obtain ⟨p, p1, p2, p3, p4⟩ := prisms_meet_abs sq (bv k) (bv (k + 1)) (bv (k + 2))
+    (@Iso3.rot K (fieldNum K sq) m (bv l)) (@Iso3.rot K (fieldNum K sq) m (bv (l + 1)))
+    (@Iso3.rot K (fieldNum K sq) m (bv (l + 2))) m.t (comp he1 (k + 1)) (comp he1 (k + 2))
+    (comp he2 (l + 1)) (comp he2 (l + 2)) (h1 _) (h1 _) (h2 _) (h2 _)
+    (by rw [bv_dot sq, if_neg k1]) (by rw [bv_dot sq, if_neg k2]) (by rw [bv_dot sq, if_pos rfl])
+    (by rw [bv_dot sq, if_pos rfl]) (by rw [bv_dot sq, if_neg k12])
+    (by rw [frame_dot sq m _ _ h, if_neg l1]) (by rw [frame_dot sq m _ _ h, if_neg l2])
+    (by rw [frame_dot sq m _ _ h, if_pos rfl]) (by rw [frame_dot sq m _ _ h, if_pos rfl])
+    (by rw [frame_dot sq m _ _ h, if_neg l12]) hn H
+  refine ⟨p, ?_, ?_⟩
+  · intro k' hk'
+    rcases other_two k k' hk' with rfl | rfl
+    · rw [comp_dot sq]; exact p1
+    · rw [comp_dot sq]; exact p2
+  · intro l' hl'
+    rcases other_two l l' hl' with rfl | rfl
+    · rw [invAct_comp sq m p _ h]; exact p3
+    · rw [invAct_comp sq m p _ h]; exact p4
+
+/-! ## Link to the code: `intersection_test_cuboid_cuboid` (dim3) -/
+
+private theorem inverse_invRot' (m : Iso3 K) (v : V3 K) :
+    letI := fieldNum K sq
+    m.inverse.invRot v = m.rot v := by
+  simp only [Iso3.inverse, Iso3.invRot, Iso3.rot, Iso3.qv, V3.neg, neg_neg]
+
+private theorem realEps_pos :
+    letI := fieldNum K sq
+    (0 : K) < realEps := by
+  show (0 : K) < ((mkRat 1 4503599627370496 : Rat) : K)
+  have : (0 : Rat) < mkRat 1 4503599627370496 := by rw [Rat.mkRat_eq_div]; norm_num
+  exact_mod_cast this
+
+/-- the overlap condition is invariant under positive scaling of the axis -/
+private theorem axisOverlap_of_sdiv (m : Iso3 K) (he1 he2 a : V3 K) (ρ : K) (hρ : 0 < ρ) :
+    letI := fieldNum K sq
+    AxisOverlap sq he1 he2 m (a.sdiv ρ) → AxisOverlap sq he1 he2 m a := by
+  intro H
+  unfold AxisOverlap at H ⊢
+  have hsd : @Iso3.invRot K (fieldNum K sq) m (@V3.sdiv K (fieldNum K sq) a ρ)
+      = @V3.sdiv K (fieldNum K sq) (@Iso3.invRot K (fieldNum K sq) m a) ρ := by
+    simp only [Iso3.invRot, Iso3.rotQ, V3.add, V3.smul, V3.cross, V3.sdiv, fieldNum_two, V3.mk.injEq]
+    refine ⟨?_, ?_, ?_⟩ <;> ring
+  have hab : ∀ he w : V3 K, absDot he (@V3.sdiv K (fieldNum K sq) w ρ) = absDot he w / ρ := by
+    intro he w
+    simp only [absDot, V3.sdiv, abs_div, abs_of_pos hρ]; ring
+  have hd : @V3.dot K (fieldNum K sq) m.t (@V3.sdiv K (fieldNum K sq) a ρ) = @V3.dot K (fieldNum K sq) m.t a / ρ := by
+    simp only [V3.dot, V3.sdiv]; ring
+  rw [hsd, hab, hab, hd, abs_div, abs_of_pos hρ, ← add_div] at H
+  exact (div_le_div_iff_of_pos_right hρ).mp H
+
+private theorem edge_mem (m : Iso3 K) (k l : Fin 3) :
+    letI := fieldNum K sq
+    (bv k : V3 K).cross (m.rot (bv l)) ∈ satEdgeAxes m := by
+  rw [satEdgeAxes_table sq m]
+  fin_cases k <;> fin_cases l <;> simp [bv]
+
+/-- **Completeness of the fifteen axes, in general position** (`_partial`; the full statement is
+`intersectionTestCuboidCuboid_true_full`).  If `intersection_test_cuboid_cuboid` returns `true` and each of the nine
+candidate edge axes `e_k × pos12·e_l` is long enough to be tested by the code (`norm > f64::EPSILON`: no edge of
+cuboid 2 parallel, or within EPSILON of parallel, to an edge of cuboid 1), then some point of cuboid 2 (posed by
+`pos12`) lies in cuboid 1.
+**Gap**: when `e_k × pos12·e_l` is (nearly) zero the code skips that axis; for an exactly zero cross product the two
+prisms are parallel and meet by the planar theorem `rect_rect_complete` applied to their cross-sections (not
+formalised here); for a non-zero cross product of norm `≤ EPSILON` the code's verdict `true` can be wrong by a gap of
+that order, so the hypothesis cannot be dropped entirely. -/
+theorem intersectionTestCuboidCuboid_true_partial (m : Iso3 K) (he1 he2 : V3 K) (h : Unit3 m) (hs : LawfulSqrt sq)
+    (h1 : ∀ k, 0 ≤ comp he1 k) (h2 : ∀ l, 0 ≤ comp he2 l)
+    (hgen : ∀ a ∈ @satEdgeAxes K (fieldNum K sq) m, @realEps K (fieldNum K sq) < @V3.norm K (fieldNum K sq) a)
+    (ht : @intersectionTestCuboidCuboid K (fieldNum K sq) m he1 he2 = true) :
+    CuboidsMeet sq he1 he2 m := by
+  unfold intersectionTestCuboidCuboid at ht
+  simp only [] at ht
+  by_cases hA : 0 < (@satNormalOneway K (fieldNum K sq) he1 he2 m).1
+  · simp [hA] at ht
+  by_cases hB : 0 < (@satNormalOneway K (fieldNum K sq) he2 he1 (@Iso3.inverse K (fieldNum K sq) m)).1
+  · simp [hA, hB] at ht
+  have hC : ¬ 0 < (@satEdgeTwoway K (fieldNum K sq) he1 he2 m).1 := by
+    simp [hA, hB] at ht
+    exact not_lt.mpr ht
+  have hi : Unit3 (@Iso3.inverse K (fieldNum K sq) m) := by
+    unfold Unit3 at h ⊢
+    simp only [Iso3.inverse, Iso3.qv, V3.neg]
+    linear_combination h
+  rw [satNormalOneway_pos_iff] at hA hB
+  obtain ⟨a0, a1, a2⟩ := normalSep_formula sq he1 he2 m h
+  obtain ⟨b0, b1, b2⟩ := normalSep_formula sq he2 he1 _ hi
+  rw [a0, a1, a2] at hA
+  rw [b0, b1, b2, inverse_invRot', inverse_invRot', inverse_invRot'] at hB
+  push Not at hA hB
+  apply cuboids_meet_of_quadruples sq m he1 he2 h h1 h2
+  · intro k
+    unfold FaceA
+    fin_cases k
+    · have := hA.1; simp [comp, bv] at this ⊢; linarith
+    · have := hA.2.1; simp [comp, bv] at this ⊢; linarith
+    · have := hA.2.2; simp [comp, bv] at this ⊢; linarith
+  · intro l
+    unfold FaceB
+    have ti : ∀ j : Fin 3, comp (@Iso3.inverse K (fieldNum K sq) m).t j
+        = -(@V3.dot K (fieldNum K sq) m.t (@Iso3.rot K (fieldNum K sq) m (bv j))) := by
+      intro j
+      show comp (@Iso3.invRot K (fieldNum K sq) m (@V3.neg K (fieldNum K sq) m.t)) j = _
+      rw [comp_dot sq, invRot_dot_rot sq m _ _ h]
+      simp only [V3.dot, V3.neg]; ring
+    have t0 := ti 0; have t1 := ti 1; have t2 := ti 2
+    simp only [comp, Matrix.cons_val_zero, Matrix.cons_val_one, Matrix.cons_val] at t0 t1 t2
+    fin_cases l
+    · have := hB.1; rw [t0, abs_neg] at this; simp [comp, bv] at this ⊢; linarith
+    · have := hB.2.1; rw [t1, abs_neg] at this; simp [comp, bv] at this ⊢; linarith
+    · have := hB.2.2; rw [t2, abs_neg] at this; simp [comp, bv] at this ⊢; linarith
+  · intro k l
+    have hmem := edge_mem sq m k l
+    have hlong := hgen _ hmem
+    have hne : ¬ EdgeSep sq he1 he2 m (@V3.cross K (fieldNum K sq) (bv k) (@Iso3.rot K (fieldNum K sq) m (bv l))) := by
+      intro hE
+      exact hC ((satEdgeTwoway_pos_iff sq he1 he2 m).mpr ⟨_, hmem, hE⟩)
+    unfold EdgeSep at hne
+    have hsep := not_lt.mp (fun hp => hne ⟨hlong, hp⟩)
+    rw [satSepLine_fst sq he1 he2 m _ h] at hsep
+    have hρ : 0 < @V3.norm K (fieldNum K sq)
+        (@V3.cross K (fieldNum K sq) (bv k) (@Iso3.rot K (fieldNum K sq) m (bv l))) :=
+      lt_trans (realEps_pos sq) hlong
+    apply prismsMeet_of_edge sq m he1 he2 k l h h1 h2
+    · intro h0
+      have : @V3.norm K (fieldNum K sq) (@V3.cross K (fieldNum K sq) (bv k) (@Iso3.rot K (fieldNum K sq) m (bv l)))
+          = sq 0 := by
+        show sq _ = sq 0
+        rw [show @V3.normSq K (fieldNum K sq) _ = @V3.dot K (fieldNum K sq) _ _ from rfl, h0]
+      rw [this] at hρ
+      have := hs.sq_mul 0 le_rfl
+      have : sq 0 = 0 := by
+        rcases mul_eq_zero.mp this with h | h <;> exact h
+      rw [this] at hρ
+      exact lt_irrefl _ hρ
+    · apply axisOverlap_of_sdiv sq m he1 he2 _ _ hρ
+      unfold AxisOverlap
+      linarith
+
+/-- the full completeness statement (no general-position hypothesis on the exactly parallel edge pairs): open -/
+def intersectionTestCuboidCuboid_true_full : Prop :=
+  ∀ (m : Iso3 K) (he1 he2 : V3 K), Unit3 m → LawfulSqrt sq → (∀ k, 0 ≤ comp he1 k) → (∀ l, 0 ≤ comp he2 l) →
+    (∀ a ∈ @satEdgeAxes K (fieldNum K sq) m,
+      @V3.dot K (fieldNum K sq) a a = 0 ∨ @realEps K (fieldNum K sq) < @V3.norm K (fieldNum K sq) a) →
+    @intersectionTestCuboidCuboid K (fieldNum K sq) m he1 he2 = true → CuboidsMeet sq he1 he2 m
 
 end C03
